@@ -75,6 +75,7 @@ type PathResult struct {
 	Asserts    int // assertion obligations discharged (unsat or trivially true)
 	AssertsTrivial int
 	Unknowns   []string
+	SolverResyncs int
 	Instrs     int
 	FuncsHit   map[string]int
 	StubsHit   map[string]int
@@ -232,6 +233,17 @@ func (x *Exec) check(extra *Term, timeoutMs int, modelVars []*Term) (SatResult, 
 	// always ask for the complete model: it becomes a cached witness
 	all := x.tc.vars
 	r, m, err := x.solver.Check(extra, timeoutMs, all)
+	if err != nil && strings.Contains(err.Error(), "canceled") {
+		// z3's timer of an earlier query can fire late and cancel the next
+		// command ("push canceled"); the assertion stack is then out of step.
+		// Rebuild the solver state from the path condition and ask once more.
+		x.solver.Reset()
+		for _, t := range x.pcTerms {
+			x.solver.Assert(t)
+		}
+		x.res.SolverResyncs++
+		r, m, err = x.solver.Check(extra, timeoutMs, all)
+	}
 	if err == nil && r == Sat {
 		// variables created later default to 0 in Eval; that is only sound for
 		// variables that do not occur in the path condition yet, which holds
